@@ -94,7 +94,7 @@ def tri(thunk):
 def hsh(obj, hids):
     try:
         return {'ok': True, 'id': hids(hash(obj))}
-    except TypeError:
+    except Exception:  # noqa  (TypeError is the protocol; anything else escaping from hash() counts as not hashable just the same)
         return {'ok': False, 'id': 0}
 
 
@@ -217,9 +217,13 @@ def events_for(tid, ps, rnd):
         all(q.sources == p0_.sources and q.upgraded_annotation is p0_.upgraded_annotation and q._function is p0_._function
             for p0_, q in zip(params, [x for x in r4.parameters.values() if x.name != 'zq']))
     r5 = up.replace(parameters=(p for p in params))            # any iterable, as inspect.Signature.replace accepts
+    upr = up.replace(return_annotation=absig.AN[35], upgraded_return_annotation=newann)
+    r6 = upr.replace(return_annotation=upr.empty)              # the plain return annotation alone is taken away: the upgraded one is kept
+    r7 = upr.replace(return_annotation=absig.AN[36])
     yield {'tid': tid + '/replace-sig', 'op': 'replace', 'type_kept': all(type(r) is signatures.UpgradedSignature for r in (r0, r1, r2, r3, r4, r5)),
            'kept': {'sources': r0.sources == up.sources and r1.sources == up.sources and r3.sources == up.sources,
                     'upgraded_return': r0.upgraded_return_annotation is up.upgraded_return_annotation and r1.upgraded_return_annotation is up.upgraded_return_annotation,
+                    'upgraded_return_when_only_plain_return_overridden': r6.upgraded_return_annotation is newann and r7.upgraded_return_annotation is newann,
                     'parameters': list(r0.parameters.values()) == params and all(type(p) is signatures.UpgradedParameter for p in r1.parameters.values()),
                     'upgraded_parameters_in_mixed_list': mixed_ok},
            'taken': {'sources': r2.sources == {}, 'upgraded_return': r3.upgraded_return_annotation is newann, 'parameters': len(r1.parameters) == max(0, len(params) - 1),
